@@ -486,33 +486,37 @@ class Simulation:
     ) -> pd.DataFrame | list[pd.DataFrame]:
         """Get fluxes of variable with positive stoichiometry."""
         current = self.model.get_parameter_values()
-        self.model.update_parameters(self.raw_parameters[0])
-        names = [
-            k
-            for k, v in self.model.get_stoichiometries_of_variable(variable).items()
-            if v > 0
-        ]
+        try:
+            self.model.update_parameters(self.raw_parameters[0])
+            names = [
+                k
+                for k, v in self.model.get_stoichiometries_of_variable(
+                    variable
+                ).items()
+                if v > 0
+            ]
 
-        fluxes: list[pd.DataFrame] = [
-            i.loc[:, names]
-            for i in self.get_fluxes(normalise=normalise, concatenated=False)
-        ]
+            fluxes: list[pd.DataFrame] = [
+                i.loc[:, names]
+                for i in self.get_fluxes(normalise=normalise, concatenated=False)
+            ]
 
-        if scaled:
-            fluxes = [i.copy() for i in fluxes]
-            for v, p, variables in zip(
-                fluxes, self.raw_parameters, self.raw_variables, strict=True
-            ):
-                self.model.update_parameters(p)
-                # Coefficients can depend on the state, so take them at every row
-                for time, row in variables.iterrows():
-                    stoichs = self.model.get_stoichiometries_of_variable(
-                        variable, variables=row.to_dict(), time=cast(float, time)
-                    )
-                    for k in names:
-                        v.loc[time, k] *= stoichs[k]
-
-        self.model.update_parameters(current)
+            if scaled:
+                fluxes = [i.copy() for i in fluxes]
+                for v, p, variables in zip(
+                    fluxes, self.raw_parameters, self.raw_variables, strict=True
+                ):
+                    self.model.update_parameters(p)
+                    # Coefficients can depend on the state, so take them at every row
+                    for time, row in variables.iterrows():
+                        stoichs = self.model.get_stoichiometries_of_variable(
+                            variable, variables=row.to_dict(), time=cast(float, time)
+                        )
+                        for k in names:
+                            v.loc[time, k] *= stoichs[k]
+        finally:
+            # Also if the read is interrupted: leave the shared model as it was found
+            self.model.update_parameters(current)
         if concatenated:
             return pd.concat(fluxes, axis=0)
         return fluxes
@@ -557,33 +561,37 @@ class Simulation:
     ) -> pd.DataFrame | list[pd.DataFrame]:
         """Get fluxes of variable with negative stoichiometry."""
         current = self.model.get_parameter_values()
-        self.model.update_parameters(self.raw_parameters[0])
-        names = [
-            k
-            for k, v in self.model.get_stoichiometries_of_variable(variable).items()
-            if v < 0
-        ]
+        try:
+            self.model.update_parameters(self.raw_parameters[0])
+            names = [
+                k
+                for k, v in self.model.get_stoichiometries_of_variable(
+                    variable
+                ).items()
+                if v < 0
+            ]
 
-        fluxes: list[pd.DataFrame] = [
-            i.loc[:, names]
-            for i in self.get_fluxes(normalise=normalise, concatenated=False)
-        ]
+            fluxes: list[pd.DataFrame] = [
+                i.loc[:, names]
+                for i in self.get_fluxes(normalise=normalise, concatenated=False)
+            ]
 
-        if scaled:
-            fluxes = [i.copy() for i in fluxes]
-            for v, p, variables in zip(
-                fluxes, self.raw_parameters, self.raw_variables, strict=True
-            ):
-                self.model.update_parameters(p)
-                # Coefficients can depend on the state, so take them at every row
-                for time, row in variables.iterrows():
-                    stoichs = self.model.get_stoichiometries_of_variable(
-                        variable, variables=row.to_dict(), time=cast(float, time)
-                    )
-                    for k in names:
-                        v.loc[time, k] *= -stoichs[k]
-
-        self.model.update_parameters(current)
+            if scaled:
+                fluxes = [i.copy() for i in fluxes]
+                for v, p, variables in zip(
+                    fluxes, self.raw_parameters, self.raw_variables, strict=True
+                ):
+                    self.model.update_parameters(p)
+                    # Coefficients can depend on the state, so take them at every row
+                    for time, row in variables.iterrows():
+                        stoichs = self.model.get_stoichiometries_of_variable(
+                            variable, variables=row.to_dict(), time=cast(float, time)
+                        )
+                        for k in names:
+                            v.loc[time, k] *= -stoichs[k]
+        finally:
+            # Also if the read is interrupted: leave the shared model as it was found
+            self.model.update_parameters(current)
         if concatenated:
             return pd.concat(fluxes, axis=0)
         return fluxes
